@@ -622,6 +622,70 @@ func (c *coord) prefixReproduce(cd *Candidate) *ReplayFile {
 	return rf
 }
 
+// composeHistory builds, for a one-task property, a single world out of the runs
+// of a worker range: first the operations of the earlier run(s), then those of
+// the failing run. The failing run's objects come first in the object list (C09
+// judges objects 0 and 1; later ones are unjudged noise there). Returns a
+// candidate that reproduces the violation class/kind on the canonical tape, or nil.
+func (c *coord) composeHistory(cd *Candidate, wr *WorkerRange) *Candidate {
+	if wr == nil || (c.prop != "C09" && c.prop != "C10") {
+		return nil
+	}
+	last := &Candidate{Prop: c.prop, Seed: cd.Seed, RunIdx: wr.To - 1, Wid: cd.Wid}
+	c.materialise(last)
+	if last.World == nil || len(last.World.Tasks) != 1 {
+		return nil
+	}
+	try := func(runs []int) *Candidate {
+		w := last.World.Clone()
+		w.Explore = false
+		var pre []Op
+		for _, i := range runs {
+			e := &Candidate{Prop: c.prop, Seed: cd.Seed, RunIdx: i, Wid: cd.Wid}
+			c.materialise(e)
+			if e.World == nil || len(e.World.Tasks) != 1 {
+				return nil
+			}
+			shift := len(w.Objects)
+			for _, o := range e.World.Objects {
+				if o.ShareWith > 0 {
+					o.ShareWith += shift
+				}
+				w.Objects = append(w.Objects, o)
+			}
+			for _, op := range e.World.Tasks[0] {
+				if op.Kind != "gc" {
+					op.Obj += shift
+				}
+				op.PanicAt = 0
+				pre = append(pre, op)
+			}
+			if len(w.Objects) > 80 {
+				return nil
+			}
+		}
+		w.Tasks = [][]Op{append(pre, w.Tasks[0]...)}
+		n := &Candidate{Prop: c.prop, Seed: cd.Seed, RunIdx: cd.RunIdx, Wid: cd.Wid, Race: cd.Race, World: w, Violation: cd.Violation}
+		if same(&cd.Violation, c.eval(n)) {
+			return n
+		}
+		return nil
+	}
+	// the first run of the range is needed (the range was tightened from the left);
+	// the runs between it and the failing one usually are not
+	if n := try([]int{wr.From}); n != nil {
+		return n
+	}
+	if wr.To-1-wr.From <= 12 {
+		var all []int
+		for i := wr.From; i < wr.To-1; i++ {
+			all = append(all, i)
+		}
+		return try(all)
+	}
+	return nil
+}
+
 func tapeLen(t [simrt.NKinds][]uint32) int {
 	n := 0
 	for _, s := range t {
@@ -699,6 +763,17 @@ func (c *coord) conclude() int {
 			// Perhaps the run only fails after the runs the same worker process
 			// executed before it (process-wide state surviving between runs).
 			if rf := c.prefixReproduce(g[0]); rf != nil {
+				// A dependence on earlier runs of a one-task property is a longer
+				// history: try to say it as ONE world (the earlier run's operations,
+				// then the failing run's), which minimises and replays from a tape
+				// like any other violation. If that does not reproduce, the range
+				// replay stands.
+				if comp := c.composeHistory(g[0], rf.WorkerRange); comp != nil {
+					if mrf := c.minimise(comp, budgetEnd); mrf != nil {
+						mrf.Detail += fmt.Sprintf(" (found as a dependence of run %d on runs %d..%d of the same worker process; composed into one history and minimised)", rf.WorkerRange.To-1, rf.WorkerRange.From, rf.WorkerRange.To-2)
+						rf = mrf
+					}
+				}
 				path := filepath.Join(c.verif, "replays", fmt.Sprintf("%s-%d-%s.json", c.prop, c.seed, shortHash(rf)))
 				_ = os.MkdirAll(filepath.Dir(path), 0o755)
 				b, _ := json.MarshalIndent(rf, "", " ")
